@@ -1221,7 +1221,9 @@ class DocOpt(object):
         return 'DocOpt(%s default=%s via %s)' % (self.name, self.default_text, self.how)
 
 
-_HEADER = re.compile(r'^(?P<indent>\s+)(?:[-*]\s+)?(?P<name>[A-Za-z_]\w*)\s*(?:\((?P<type>[^)]*)\))?\s*:(?!:)')
+_TYPE = r'(?:\((?P<type>(?:[^()\n]|\([^()\n]*\))*)\))'
+_HEADER = re.compile(r'^(?P<indent>\s+)(?:[-*]\s+)?(?P<name>[A-Za-z_]\w*)\s*' + _TYPE + r'?\s*:(?!:)')
+_HEADER_ML = re.compile(r'^(?P<indent>[ \t]+)(?:[-*][ \t]+)?(?P<name>[A-Za-z_]\w*)[ \t]*\((?P<type>(?:[^()]|\([^()\n]*\))*)\)[ \t]*:(?!:)', re.M)
 _HEADER_NOCOLON = re.compile(r'^(?P<indent>\s+)(?:[-*]\s+)?(?P<name>[A-Za-z_]\w*)\s*\((?P<body>default[^)]*)\)\s*$')
 _BULLET_DEFAULT_IS = re.compile(r'^(?P<indent>\s+)[-*]\s+default\s+(?P<name>[A-Za-z_]\w*)\s+is\s+')
 
@@ -1257,6 +1259,13 @@ def parse_docstring_options(doc):
         pos += len(ln) + 1
     text = '\n'.join(lines)
     headers = []
+    multi = {}
+    for m in _HEADER_ML.finditer(text):
+        typ = m.group('type')
+        if typ is None or '\n' not in typ or typ.count('\n') > 1:
+            continue
+        line_no = text.count('\n', 0, m.start('indent'))
+        multi[line_no] = m
     open_indent = None        # indentation of the header whose block is currently open
     for i, ln in enumerate(lines):
         if ln.strip() and open_indent is not None and _raw_indent(ln) <= open_indent:
@@ -1265,6 +1274,12 @@ def parse_docstring_options(doc):
         if m:
             headers.append((i, len(m.group('indent')) + (2 if ln.strip()[:1] in '-*' else 0), m.group('name'),
                             m.group('type'), m.end(), None))
+            open_indent = _raw_indent(ln)
+            continue
+        if i in multi:
+            m = multi[i]
+            headers.append((i, len(m.group('indent')) + (2 if ln.strip()[:1] in '-*' else 0), m.group('name'),
+                            ' '.join(m.group('type').split()), m.end() - offsets[i], None))
             open_indent = _raw_indent(ln)
             continue
         m = _HEADER_NOCOLON.match(ln)
